@@ -120,4 +120,82 @@ theorem HasExpSum.exp_eq {A M : 𝔸} (h : HasExpSum A M) : NormedSpace.exp A = 
   rw [NormedSpace.exp_eq_tsum ℝ]
   exact h.tsum_eq
 
+
+/-! ### the case `A⁴ = -θ² A²` (rigid motions: `[[W, ρ], [0, 0]]` with `W` skew) -/
+
+theorem pow_even_of_quartic {A : 𝔸} {θ : ℝ} (h : A ^ 4 = (-(θ ^ 2)) • A ^ 2) (k : ℕ) :
+    A ^ (2 * (k + 1)) = ((-(θ ^ 2)) ^ k) • A ^ 2 := by
+  induction k with
+  | zero => simp
+  | succ k ih =>
+    have e : 2 * (k + 1 + 1) = 2 * (k + 1) + 2 := by ring
+    rw [e, pow_add, ih, smul_mul_assoc, ← pow_add]
+    have e2 : 2 + 2 = 4 := rfl
+    rw [e2, h, smul_smul, ← pow_succ]
+
+theorem pow_odd_of_quartic {A : 𝔸} {θ : ℝ} (h : A ^ 4 = (-(θ ^ 2)) • A ^ 2) (k : ℕ) :
+    A ^ (2 * (k + 1) + 1) = ((-(θ ^ 2)) ^ k) • A ^ 3 := by
+  rw [pow_succ, pow_even_of_quartic h, smul_mul_assoc, ← pow_succ]
+
+theorem hasSum_sub_sin_div (θ : ℝ) (hθ : θ ≠ 0) :
+    HasSum (fun k : ℕ => (-(θ ^ 2)) ^ k / ((2 * (k + 1) + 1)! : ℝ)) ((θ - Real.sin θ) / θ ^ 3) := by
+  have hsin := Real.hasSum_sin θ
+  have h1 := (hasSum_nat_add_iff' (f := fun n : ℕ => (-1) ^ n * θ ^ (2 * n + 1) / ((2 * n + 1)! : ℝ)) 1).mpr hsin
+  simp only [Finset.range_one, Finset.sum_singleton, pow_zero, mul_zero, zero_add, Nat.factorial_one,
+    Nat.cast_one, pow_one, one_mul, div_one] at h1
+  have h2 := h1.mul_left (-1 / θ ^ 3)
+  have hf : (fun k : ℕ => (-(θ ^ 2)) ^ k / ((2 * (k + 1) + 1)! : ℝ)) =
+      fun i : ℕ => -1 / θ ^ 3 * ((-1) ^ (i + 1) * θ ^ (2 * (i + 1) + 1) / ((2 * (i + 1) + 1)! : ℝ)) := by
+    funext k
+    field_simp
+    ring
+  have hv : (θ - Real.sin θ) / θ ^ 3 = -1 / θ ^ 3 * (Real.sin θ - θ) := by
+    field_simp
+    ring
+  rw [hf, hv]
+  exact h2
+
+/-- `A⁴ = -θ²A²`, `θ ≠ 0`  ⟹
+    `Σ Aⁿ/n! = 1 + A + ((1-cos θ)/θ²) A² + ((θ - sin θ)/θ³) A³`. -/
+theorem hasExpSum_of_quartic (A : 𝔸) (θ : ℝ) (hθ : θ ≠ 0) (h : A ^ 4 = (-(θ ^ 2)) • A ^ 2) :
+    HasExpSum A (1 + A + ((1 - Real.cos θ) / θ ^ 2) • A ^ 2 + ((θ - Real.sin θ) / θ ^ 3) • A ^ 3) := by
+  unfold HasExpSum
+  -- odd part, from index 1
+  have hodd1 : HasSum (fun k : ℕ => (((2 * (k + 1) + 1)! : ℝ)⁻¹) • A ^ (2 * (k + 1) + 1))
+      (((θ - Real.sin θ) / θ ^ 3) • A ^ 3) := by
+    have := (hasSum_sub_sin_div θ hθ).smul_const (A ^ 3)
+    have hf : (fun k : ℕ => (((2 * (k + 1) + 1)! : ℝ)⁻¹) • A ^ (2 * (k + 1) + 1)) =
+        fun k : ℕ => ((-(θ ^ 2)) ^ k / ((2 * (k + 1) + 1)! : ℝ)) • A ^ 3 := by
+      funext k
+      rw [pow_odd_of_quartic h, smul_smul]
+      congr 1
+      field_simp
+    rw [hf]
+    exact this
+  have hodd : HasSum (fun k : ℕ => (((2 * k + 1)! : ℝ)⁻¹) • A ^ (2 * k + 1))
+      (A + ((θ - Real.sin θ) / θ ^ 3) • A ^ 3) := by
+    have := HasSum.zero_add (f := fun k : ℕ => (((2 * k + 1)! : ℝ)⁻¹) • A ^ (2 * k + 1)) hodd1
+    simpa using this
+  -- even part, from index 1
+  have heven1 : HasSum (fun k : ℕ => (((2 * (k + 1))! : ℝ)⁻¹) • A ^ (2 * (k + 1)))
+      (((1 - Real.cos θ) / θ ^ 2) • A ^ 2) := by
+    have := (hasSum_one_sub_cos_div θ hθ).smul_const (A ^ 2)
+    have hf : (fun k : ℕ => (((2 * (k + 1))! : ℝ)⁻¹) • A ^ (2 * (k + 1))) =
+        fun k : ℕ => ((-(θ ^ 2)) ^ k / ((2 * (k + 1))! : ℝ)) • A ^ 2 := by
+      funext k
+      rw [pow_even_of_quartic h, smul_smul]
+      congr 1
+      field_simp
+    rw [hf]
+    exact this
+  have heven : HasSum (fun k : ℕ => (((2 * k)! : ℝ)⁻¹) • A ^ (2 * k))
+      (1 + ((1 - Real.cos θ) / θ ^ 2) • A ^ 2) := by
+    have := HasSum.zero_add (f := fun k : ℕ => (((2 * k)! : ℝ)⁻¹) • A ^ (2 * k)) heven1
+    simpa using this
+  have := HasSum.even_add_odd (f := fun n : ℕ => ((n ! : ℝ)⁻¹) • A ^ n) heven hodd
+  have e : 1 + A + ((1 - Real.cos θ) / θ ^ 2) • A ^ 2 + ((θ - Real.sin θ) / θ ^ 3) • A ^ 3 =
+      1 + ((1 - Real.cos θ) / θ ^ 2) • A ^ 2 + (A + ((θ - Real.sin θ) / θ ^ 3) • A ^ 3) := by abel
+  rw [e]
+  exact this
+
 end Manif
